@@ -53,7 +53,7 @@ ASSUMPTIONS = [
     'the noise normalisation is compared up to a configuration constant: chi - reference must agree (1e-8 relative '
     'to the score) between the three vectors of one configuration',
     'derivative oracle: complex step of the reference value; compared entry by entry (1e-7 relative to '
-    'max(1,|entry|), plus 1e-12 of the largest gradient entry as a floor for cancelling sums)',
+    'max(1,|entry|), plus 1e-11 of the largest gradient entry as a floor for cancelling sums)',
     'special (pooled / heterogeneous) dimensions are those of the composition spec, also inside a covariate wrapper',
     'simulated values of one cell / mixture block are not (nearly) identical: zero empirical variance is outside the '
     'documented estimators (cases violating this are counted inconclusive)']
@@ -739,7 +739,7 @@ def check(case):
             err = np.abs(g - gw)
             # entry-wise 1e-7 relative; plus a norm-wise floor for entries that are the (nearly cancelling) sum of
             # terms of the size of the largest entries (data many bandwidths away from the simulated values)
-            tol = 1e-7 * np.maximum(1.0, np.maximum(np.abs(g), np.abs(gw))) + 1e-12 * float(np.max(np.abs(gw)))
+            tol = 1e-7 * np.maximum(1.0, np.maximum(np.abs(g), np.abs(gw))) + 1e-11 * float(np.max(np.abs(gw)))
             wrong = ~(err <= tol)
             if np.any(wrong):
                 j = int(np.argmax(np.where(np.isfinite(err), err / tol, np.inf)))
